@@ -286,7 +286,20 @@ func c17LTTB(count, th int, rng *rand.Rand) Case {
 func c17CLI(idx int, arr []vegeta.Result, th int, names []string, want []c17series, wantErr bool) bool {
 	in := writeTemp(idx, "plot.bin", encodeResults(arr, []string{"gob", "json", "csv"}[idx%3]))
 	defer os.Remove(in)
-	out, err := runCLI(nil, "plot", "-threshold", strconv.Itoa(th), in)
+	files := []string{in}
+	if idx%20 == 17 && len(arr) >= 4 {
+		// the same results in two files of unequal lengths (the shorter one first or last)
+		cut := len(arr) / 4
+		a := writeTemp(idx, "plotA.bin", encodeResults(arr[:cut], "gob"))
+		b := writeTemp(idx, "plotB.bin", encodeResults(arr[cut:], []string{"gob", "json", "csv"}[idx%3]))
+		defer os.Remove(a)
+		defer os.Remove(b)
+		files = []string{a, b}
+		if idx%40 == 37 {
+			files = []string{b, a}
+		}
+	}
+	out, err := runCLI(nil, append([]string{"plot", "-threshold", strconv.Itoa(th)}, files...)...)
 	if err != nil {
 		return wantErr
 	}
